@@ -20,7 +20,9 @@ type c14case struct {
 	limit  int
 	oids   []int
 	chunks [][]byte
-	ending string   // done | fail
+	ending string   // done | fail | over (an oversized message follows the chunks, then `after`, then CopyDone)
+	must   string   // "err": whatever the rows, the copy must end with an error (cut inside a row, oversized message)
+	after  [][]byte // ending "over": what the client goes on sending behind the oversized message
 	expect []string // rows the client encoded (nil: not a well-formed stream)
 	noise  bool     // Flush/Sync interleaved between the CopyData messages
 }
@@ -112,9 +114,17 @@ func runC14case(cs *c14case) (rows []string, final string, panicked bool, out []
 			raw = append(raw, mSync()...)
 		}
 	}
-	if cs.ending == "done" {
+	switch cs.ending {
+	case "done":
 		raw = append(raw, mCopyDone()...)
-	} else {
+	case "over":
+		// a message above the limit in the middle of the stream: the copy fails there, whatever follows
+		raw = append(raw, mCopyData(make([]byte, cs.limit+1+len(cs.id)%7))...)
+		for _, ch := range cs.after {
+			raw = append(raw, mCopyData(ch)...)
+		}
+		raw = append(raw, mCopyDone()...)
+	default:
 		raw = append(raw, mCopyFail([]byte("client aborts"))...)
 	}
 	raw = append(raw, mSync()...)
@@ -131,6 +141,19 @@ func runC14case(cs *c14case) (rows []string, final string, panicked bool, out []
 	return
 }
 
+// a CopyData message may not exceed the limit: split further
+func fitChunks(chunks [][]byte, L int) [][]byte {
+	var fit [][]byte
+	for _, ch := range chunks {
+		for len(ch) > L {
+			fit = append(fit, ch[:L])
+			ch = ch[L:]
+		}
+		fit = append(fit, ch)
+	}
+	return fit
+}
+
 func emitC14(c *runCfg, cs *c14case) {
 	rows, final, p, out, hang := runC14case(cs)
 	oids := []any{"oids"}
@@ -145,7 +168,11 @@ func emitC14(c *runCfg, cs *c14case) {
 	if cs.expect != nil {
 		exp = sx(append([]any{"rows"}, toAny(cs.expect)...)...)
 	}
-	c.out.line(sx("c14", cs.id, cs.class, sx("limit", cs.limit), sx(oids...), sx(chunks...), sx("ending", cs.ending), sx("noise", cs.noise), sx("expect", exp),
+	must := cs.must
+	if must == "" {
+		must = "any"
+	}
+	c.out.line(sx("c14", cs.id, cs.class, sx("limit", cs.limit), sx(oids...), sx(chunks...), sx("ending", cs.ending), sx("noise", cs.noise), sx("expect", exp), sx("must", must),
 		sx("obs", sx(append([]any{"rows"}, toAny(rows)...)...), sx("final", final), sx("panic", p), sx("hang", hang), sx("out", out))))
 	c.stat("class_" + cs.class)
 }
@@ -396,6 +423,37 @@ func runC14(c *runCfg) error {
 			}
 			emitGroup("corrupt", bad, nil, "done")
 			emitGroup("aborted", stream, nil, "fail")
+			// the stream cut after EVERY byte (one message, and one byte per message), then CopyDone:
+			// only a cut at a row boundary / behind the trailer is a complete stream
+			if len(stream) <= 120 || c.tier == "thorough" {
+				// the cuts at which the stream is complete: nothing sent, after the header, after each row
+				boundary := map[int]bool{0: true}
+				for k := 0; k <= len(rows); k++ {
+					pfx, _ := encodeRows(oids, rows[:k], header, false)
+					boundary[len(pfx)] = true
+				}
+				for a := 0; a < len(stream); a++ {
+					must := "err"
+					if boundary[a] {
+						must = ""
+					}
+					emitC14(c, &c14case{id: fmt.Sprintf("%dt%d.0", id, a), class: "cut", limit: L, oids: oids, chunks: fitChunks([][]byte{stream[:a]}, L), ending: "done", must: must})
+					if a%3 == 1 {
+						var bw [][]byte
+						for k := 0; k < a; k++ {
+							bw = append(bw, stream[k:k+1])
+						}
+						emitC14(c, &c14case{id: fmt.Sprintf("%dt%d.1", id, a), class: "cut", limit: L, oids: oids, chunks: bw, ending: "done", must: must})
+					}
+				}
+			}
+			// an oversized message at every chunk boundary of a two/three-way split
+			for k := 0; k < 6 && len(stream) > 2; k++ {
+				a := 1 + g.rng.Intn(len(stream)-1)
+				emitC14(c, &c14case{id: fmt.Sprintf("%do%d.0", id, k), class: "oversize_inside", limit: L, oids: oids,
+					chunks: fitChunks([][]byte{stream[:a]}, L), after: fitChunks([][]byte{stream[a:]}, L), ending: "over", must: "err"})
+			}
+			id++
 		}
 	}
 	return nil
